@@ -41,8 +41,14 @@ pub fn generate_workload(r: &mut Rng) -> (WProg, Plan) {
     }
     let mut calls = Vec::new();
     let nfin = r.usize(0, 3);
-    let mut fin_at: Vec<usize> = (0..nfin).map(|_| r.usize(1, n)).collect();
+    let mut fin_at: Vec<usize> = (0..nfin).map(|_| r.usize(0, n)).collect();
     fin_at.sort();
+    // a finalize before the first write (position 0) is part of the workload space too
+    for f in &fin_at {
+        if *f == 0 {
+            calls.push(WCall::Fin);
+        }
+    }
     for i in 0..n {
         calls.push(WCall::W(i));
         for f in &fin_at {
